@@ -55,6 +55,10 @@ Clauses ==
  \cup (IF \E d \in Decisions : Marked(d) /\ d \in Rejected /\ d \notin Accepted THEN {"C18:rejected-action-taken"} ELSE {})
  \cup (IF C.policy = "accept" /\ C.kind # C.plainkind THEN {"C18:accept-all-changes-outcome"} ELSE {})
  \cup (IF C.policy = "accept" /\ { Shape(t) : t \in Trees } # { Shape(t) : t \in Plain } THEN {"C18:accept-all-changes-result"} ELSE {})
+ \* "exactly the result": the same trees down to every node's layout_content and every token's value (finding D43: a reduction link of a
+ \* GLR parser with a filter installed reported another layout_content than without one)
+ \cup (IF C.policy = "accept" /\ { Shape(t) : t \in Trees } = { Shape(t) : t \in Plain } /\ Trees # Plain
+       THEN {"C18:accept-all-changes-layout-content-or-values"} ELSE {})
  \cup (IF C.policy = "reject" /\ C.parser = "glr" /\ C.complete /\ C.kind \in {"trees", "syntax"}
           /\ { Shape(t) : t \in Trees } # { Shape(t) : t \in { u \in Plain : ~Uses(u, C.rejectp) } }
        THEN {"C18:reject-production-result"} ELSE {})
